@@ -162,7 +162,9 @@ def parse_run(meta, rc, stdout, stderr):
                 src_lines = []
         for sp in clause_spans:
             found = None
-            for ln in range(sp['line_start'], min(sp['line_end'], sp['line_start'] + 12) + 1):
+            # the tag narrows a clause only if it sits on the clause's LAST line (where a one-line assert / clause carries it);
+            # a tag somewhere inside a multi-line clause belongs to a sub-term and must not hijack the whole clause
+            for ln in (sp['line_end'],):
                 if 0 < ln <= len(src_lines):
                     mm = re.search(r'/\*@props ([A-Z0-9,]+)\*/', src_lines[ln - 1])
                     if mm:
